@@ -1,4 +1,388 @@
 import ScryerModel.Proofs.IntRel
+/-!
+# C49 — Integer relation builtins enumerate exactly their relations
+
+Property theorems over `Model/IntRel.lean`, the clause-by-clause transcription of `between/3`,
+`succ/2`, `numlist/3` (library(between), library(iso_ext), library(error)) and `length/2`
+(library(lists) with `'$skip_max_list'` / `'$det_length_rundown'` of system_calls.rs).
+
+Conventions. A goal run for `n` answers yields `Res.ans as` (`as` = the first `n` answers; fewer than
+`n` means finite failure after them), `Res.err e` (error before any answer) or `Res.hang as` (still
+searching an unending candidate stream). Answers are tuples of the relation. All integers are
+mathematical integers: no bound on magnitude anywhere except where a hypothesis says so.
+`rangeIncl l u` is `[l, l+1, …, u]`.
+
+Two theorems are `_partial` because the pinned code does not satisfy the full statement:
+`C49_length_spec_partial` (negative lengths below `-2^63`, finding C49-1) — the full statement is
+proved for the code with the proposed one-line fix (`C49_length_spec_fixed`) — and
+`C49_numlist3_bound_list_partial` (no termination with a bound list and an unbound bound, C49-2).
+-/
 namespace Scryer.IntRel
+
+/-! ## The interval `[l..u]` -/
+
+/-- `[l..u]` contains exactly the integers between `l` and `u`, in ascending order, each once;
+it has `u + 1 - l` elements (none if `u < l`). -/
+theorem C49_range_exact (l u : Int) :
+    (∀ x, x ∈ rangeIncl l u ↔ (l ≤ x ∧ x ≤ u)) ∧ (rangeIncl l u).Pairwise (· < ·) ∧
+      (rangeIncl l u).Nodup ∧ (rangeIncl l u).length = (u + 1 - l).toNat :=
+  ⟨mem_rangeIncl l u, rangeIncl_sorted l u, rangeIncl_nodup l u, length_rangeIncl l u⟩
+
+/-! ## between/3 -/
+
+/-- `between/3` equals its specification for every combination of arguments (unbound, integer,
+ill-typed) and every answer limit. -/
+theorem C49_between_spec (n : Nat) (L U X : Arg) : between n L U X = specBetween n L U X :=
+  between_eq_spec n L U X
+
+/-- Enumeration mode: the first `n` answers of `between(l, u, X)` are the first `n` elements of
+`[l..u]` — ascending, once each (with `C49_range_exact`). -/
+theorem C49_between_enumerates (n : Nat) (l u : Int) (v : Nat) :
+    between n (.int l) (.int u) (.var v) = .ans ((rangeIncl l u).take n) := by
+  rw [between_eq_spec, specBetween, rangeTake_eq_take]
+
+/-- … and the enumeration terminates: asked for more answers than `[l..u]` has, the goal delivers
+exactly `[l..u]` and fails finitely. -/
+theorem C49_between_terminates (n : Nat) (l u : Int) (v : Nat) (h : (u + 1 - l).toNat < n) :
+    between n (.int l) (.int u) (.var v) = .ans (rangeIncl l u) ∧ (rangeIncl l u).length < n := by
+  rw [C49_between_enumerates, List.take_of_length_le (by rw [length_rangeIncl]; omega)]
+  exact ⟨rfl, by rw [length_rangeIncl]; exact h⟩
+
+/-- no answer when the interval is empty -/
+theorem C49_between_empty (n : Nat) (l u : Int) (v : Nat) (h : u < l) :
+    between n (.int l) (.int u) (.var v) = .ans [] := by
+  rw [between_eq_spec, specBetween, rangeTake_empty n l u h]
+
+/-- An upper bound out of reach: every finite prefix of the answers is `l, l+1, l+2, …`. -/
+theorem C49_between_unbounded_prefix (n : Nat) (l u : Int) (v : Nat) (h : l + n ≤ u + 1) :
+    between n (.int l) (.int u) (.var v) = .ans ((List.range n).map fun (i : Nat) => l + (i : Int)) := by
+  rw [between_eq_spec, specBetween, rangeTake]
+  have e : min n (u + 1 - l).toNat = n := by omega
+  rw [e]
+
+/-- Test mode: `between(l, u, x)` succeeds (once) iff `l ≤ x ≤ u`. -/
+theorem C49_between_test (n : Nat) (l u x : Int) (hn : 1 ≤ n) :
+    between n (.int l) (.int u) (.int x) = (if l ≤ x ∧ x ≤ u then .ans [x] else .ans []) := by
+  rw [between_eq_spec, specBetween]
+  split
+  · simp [ansN, List.take_of_length_le, hn]
+  · rfl
+
+/-- Error table of `between/3`: the first argument, in the order Lower, Upper, X, that is unbound
+(Lower, Upper only) or not an integer decides. An atom such as `inf` is ill-typed: this version of
+the library has no infinite upper bound. -/
+theorem C49_between_errors (n : Nat) (L U X : Arg) (l u : Int) (v k : Nat) :
+    between n (.var v) U X = .err .inst ∧
+    between n (.bad k) U X = .err (.typeInt (.bad k)) ∧
+    between n (.int l) (.var v) X = .err .inst ∧
+    between n (.int l) (.bad k) X = .err (.typeInt (.bad k)) ∧
+    between n (.int l) (.int u) (.bad k) = .err (.typeInt (.bad k)) := by
+  simp only [between_eq_spec]
+  refine ⟨rfl, rfl, ?_, ?_, rfl⟩ <;> cases X <;> rfl
+
+/-! ## succ/2 -/
+
+theorem C49_succ_spec (n : Nat) (I S : Arg) : succ n I S = specSucc n I S := succ_eq_spec n I S
+
+/-- Mode (+,-): `S = I + 1` for `I ≥ 0`, a domain error for negative `I`. -/
+theorem C49_succ_forward (n : Nat) (i : Int) (v : Nat) (hn : 1 ≤ n) :
+    succ n (.int i) (.var v) = (if 0 ≤ i then .ans [(i, i + 1)] else .err (.domNlz i)) := by
+  rw [succ_eq_spec]
+  by_cases h : 0 ≤ i
+  · have h' : ¬ i < 0 := by omega
+    simp [specSucc, specNlzErr, h, h', ansN, List.take_of_length_le, hn]
+  · have h' : i < 0 := by omega
+    simp [specSucc, specNlzErr, h, h']
+
+/-- Mode (-,+): `I = S - 1` for `S ≥ 1`, failure for `S = 0` (no natural number precedes it), a
+domain error for negative `S`. -/
+theorem C49_succ_backward (n : Nat) (s : Int) (v : Nat) (hn : 1 ≤ n) :
+    succ n (.var v) (.int s) =
+      (if s < 0 then .err (.domNlz s) else if 1 ≤ s then .ans [(s - 1, s)] else .ans []) := by
+  rw [succ_eq_spec]
+  by_cases h : s < 0
+  · simp [specSucc, specNlzErr, h]
+  · by_cases g : 1 ≤ s <;> simp [specSucc, specNlzErr, h, g, ansN, List.take_of_length_le, hn]
+
+/-- Mode (+,+) on natural numbers: succeeds iff `S = I + 1`. -/
+theorem C49_succ_test (n : Nat) (i s : Int) (hn : 1 ≤ n) (hi : 0 ≤ i) (hs : 0 ≤ s) :
+    succ n (.int i) (.int s) = (if s = i + 1 then .ans [(i, s)] else .ans []) := by
+  rw [succ_eq_spec]
+  have h1 : ¬ i < 0 := by omega
+  have h2 : ¬ s < 0 := by omega
+  by_cases g : s = i + 1 <;> simp [specSucc, specNlzErr, h1, h2, g, ansN, List.take_of_length_le, hn]
+
+/-- Every answer of `succ/2`, in every mode, is a pair `(i, i + 1)` with `i ≥ 0` that is compatible
+with the arguments; there is at most one. -/
+theorem C49_succ_sound (n : Nat) (I S : Arg) (as : List (Int × Int)) (h : succ n I S = .ans as) :
+    as.length ≤ 1 ∧ ∀ p ∈ as, p.2 = p.1 + 1 ∧ 0 ≤ p.1 ∧ argAdmits I p.1 = true ∧ argAdmits S p.2 = true := by
+  rw [succ_eq_spec] at h
+  unfold specSucc at h
+  split at h
+  · exact absurd h (by simp)
+  · exact absurd h (by simp)
+  · rename_i e1 e2
+    split at h
+    · rename_i i s
+      have hi : ¬ i < 0 := by intro g; simp [specNlzErr, g] at e1
+      split at h
+      · rename_i g
+        simp only [ansN, Res.ans.injEq] at h
+        subst h
+        refine ⟨by simp; omega, fun p hp => ?_⟩
+        have := List.mem_of_mem_take hp
+        simp only [List.mem_singleton] at this
+        subst this
+        exact ⟨g, by omega, by simp [argAdmits], by simp [argAdmits]⟩
+      · simp only [Res.ans.injEq] at h; subst h; simp
+    · rename_i i _ _
+      have hi : ¬ i < 0 := by intro g; simp [specNlzErr, g] at e1
+      simp only [ansN, Res.ans.injEq] at h
+      subst h
+      refine ⟨by simp; omega, fun p hp => ?_⟩
+      have := List.mem_of_mem_take hp
+      simp only [List.mem_singleton] at this
+      subst this
+      rename_i S' _
+      refine ⟨rfl, by omega, by simp [argAdmits], ?_⟩
+      cases S' with
+      | var _ => rfl
+      | int s => rename_i hS; exact absurd rfl (hS s)
+      | bad k => simp [specNlzErr] at e2
+    · rename_i s _ _
+      split at h
+      · rename_i g
+        simp only [ansN, Res.ans.injEq] at h
+        subst h
+        refine ⟨by simp; omega, fun p hp => ?_⟩
+        have := List.mem_of_mem_take hp
+        simp only [List.mem_singleton] at this
+        subst this
+        rename_i I' _ hI _
+        refine ⟨by simp, by simp; omega, ?_, by simp [argAdmits]⟩
+        cases I' with
+        | var _ => rfl
+        | int i => exact absurd rfl (hI i s)
+        | bad k => simp [specNlzErr] at e1
+      · simp only [Res.ans.injEq] at h; subst h; simp
+    · exact absurd h (by simp)
+
+/-- … and every such pair is found: if some `i ≥ 0` is compatible with `I` and `i + 1` with `S`,
+and not both are unbound, the goal answers exactly `(i, i + 1)`. -/
+theorem C49_succ_complete (n : Nat) (I S : Arg) (i : Int) (hn : 1 ≤ n) (hi : 0 ≤ i)
+    (hI : argAdmits I i = true) (hS : argAdmits S (i + 1) = true)
+    (hv : ¬ ∃ v w, I = .var v ∧ S = .var w) : succ n I S = .ans [(i, i + 1)] := by
+  rw [succ_eq_spec]
+  have h1 : ¬ i < 0 := by omega
+  have h2 : ¬ i + 1 < 0 := by omega
+  have h3 : 1 ≤ i + 1 := by omega
+  cases I <;> cases S <;> simp_all [argAdmits, specSucc, specNlzErr, ansN, List.take_of_length_le]
+
+/-- Error table of `succ/2`: an argument that is not an integer gives `type_error(integer, _)`, a
+negative integer `domain_error(not_less_than_zero, _)` (the first argument is examined first), two
+unbound arguments an instantiation error. -/
+theorem C49_succ_errors (n : Nat) (S : Arg) (i : Int) (v w k : Nat) (hi : i < 0) :
+    succ n (.bad k) S = .err (.typeInt (.bad k)) ∧
+    succ n (.int i) S = .err (.domNlz i) ∧
+    succ n (.var v) (.bad k) = .err (.typeInt (.bad k)) ∧
+    succ n (.var v) (.int i) = .err (.domNlz i) ∧
+    succ n (.var v) (.var w) = .err .inst := by
+  simp only [succ_eq_spec]
+  refine ⟨?_, ?_, ?_, ?_, ?_⟩ <;> simp [specSucc, specNlzErr, hi]
+
+/-! ## numlist/3 -/
+
+/-- With integer bounds: `numlist(l, u, Xs)` holds iff `l ≤ u` and `Xs = [l..u]` (one answer, then
+finite failure). -/
+theorem C49_numlist3_ints (n fuel : Nat) (l u : Int) (Xs : LArg) :
+    numlist3 n fuel (.int l) (.int u) Xs
+      = (if l ≤ u ∧ unifyInts (rangeIncl l u) Xs = true then ansN n [(l, u, rangeIncl l u)] else .ans []) := by
+  simp only [numlist3, canBeInt, numlistFound, numlistBody_eq]
+  split <;> simp [ansN]
+
+/-- the specification used as oracle by the correspondence check agrees with it -/
+theorem C49_numlist3_ints_spec (n fuel : Nat) (l u : Int) (Xs : LArg) :
+    numlist3 n fuel (.int l) (.int u) Xs = specNumlist3 n fuel (.int l) (.int u) Xs := by
+  rw [C49_numlist3_ints]
+  simp [specNumlist3, canBeInt]
+
+/-- a list is `[l..u]` with `l ≤ u` for exactly the bounds the specification computes from it -/
+theorem C49_boundsOf_iff (xs : List Int) (l u : Int) :
+    boundsOf xs = some (l, u) ↔ (l ≤ u ∧ xs = rangeIncl l u) := boundsOf_iff xs l u
+
+/-- Error table of `numlist/3`: `can_be(integer, Lower)`, then `can_be(integer, Upper)`. -/
+theorem C49_numlist3_errors (n fuel : Nat) (L U : Arg) (Xs : LArg) (k : Nat) (hL : canBeInt L = none) :
+    numlist3 n fuel (.bad k) U Xs = .err (.typeInt (.bad k)) ∧
+    numlist3 n fuel L (.bad k) Xs = .err (.typeInt (.bad k)) := by
+  constructor
+  · simp [numlist3, canBeInt]
+  · simp [numlist3, hL, canBeInt]
+
+/-- Soundness in every mode: each answer `(l, u, xs)` satisfies `l ≤ u`, `xs = [l..u]`, and is
+compatible with the arguments. -/
+theorem C49_numlist3_sound (n fuel : Nat) (L U : Arg) (Xs : LArg) (as : List Tuple)
+    (h : numlist3 n fuel L U Xs = .ans as ∨ numlist3 n fuel L U Xs = .hang as) :
+    ∀ t ∈ as, t.1 ≤ t.2.1 ∧ t.2.2 = rangeIncl t.1 t.2.1 ∧ unifyInts t.2.2 Xs = true ∧
+      (∀ l, L = .int l → t.1 = l) ∧ (∀ u, U = .int u → t.2.1 = u) := by
+  intro t ht
+  apply numlistFound_sound fuel L U Xs t
+  unfold numlist3 at h
+  split at h
+  · rcases h with h | h <;> exact absurd h (by simp)
+  · split at h
+    · rcases h with h | h <;> exact absurd h (by simp)
+    · split at h
+      · rcases h with h | h
+        · simp only [ansN, Res.ans.injEq] at h; subst h; exact List.mem_of_mem_take ht
+        · exact absurd h (by simp [ansN])
+      · unfold search at h
+        split at h
+        · rcases h with h | h
+          · simp only [Res.ans.injEq] at h; subst h; exact List.mem_of_mem_take ht
+          · exact absurd h (by simp)
+        · rcases h with h | h
+          · exact absurd h (by simp)
+          · simp only [Res.hang.injEq] at h; subst h; exact ht
+
+/-- Fairness in every mode: each tuple of the relation that is compatible with the arguments is
+among the answers found once enough candidates have been scanned (and stays there). -/
+theorem C49_numlist3_complete (L U : Arg) (Xs : LArg) (hL : canBeInt L = none) (hU : canBeInt U = none)
+    (l u : Int) (hlu : l ≤ u) (hx : unifyInts (rangeIncl l u) Xs = true)
+    (hl : ∀ l', L = .int l' → l = l') (hu : ∀ u', U = .int u' → u = u') :
+    ∃ fuel0, ∀ fuel, fuel0 ≤ fuel → (l, u, rangeIncl l u) ∈ numlistFound fuel L U Xs :=
+  numlistFound_complete L U Xs hL hU l u hlu hx hl hu
+
+/-- No tuple is answered twice, in any mode. -/
+theorem C49_numlist3_no_duplicates (fuel : Nat) (L U : Arg) (Xs : LArg) :
+    (numlistFound fuel L U Xs).Nodup := numlistFound_nodup fuel L U Xs
+
+/-- The candidate generators never run dry: `gen_int/1` has produced at least `d` candidates after
+`d` levels, for every `d`. -/
+theorem C49_gen_int_unending (d : Nat) : d ≤ (enumerateInts d 0).length := length_enumerateInts_ge d 0
+
+/-- `gen_int/1` enumerates every integer exactly once (`0, 1, -1, 2, -2, …`). -/
+theorem C49_gen_int_bijective (d : Nat) (x : Int) :
+    (x ∈ enumerateInts d 0 ↔ x.natAbs < d) ∧ (enumerateInts d 0).Nodup :=
+  ⟨mem_enumerateInts_zero d x, enumerateInts_nodup d 0 (by omega)⟩
+
+/-- `diag_ints/2` enumerates every pair of integers exactly once. -/
+theorem C49_diag_ints_bijective (q : Int × Int) : (∃ d, q ∈ diagInts d) ∧ ∀ d, (diagInts d).Nodup :=
+  ⟨mem_diagInts q, diagInts_nodup⟩
+
+/-- PARTIAL (finding C49-2). With a bound list and an unbound bound the relation has at most one
+tuple, and the pinned code finds it, but it then goes on searching for ever: asked for two answers
+it never returns, whatever the scan fuel. What is missing for the property: termination. -/
+theorem C49_numlist3_bound_list_partial (fuel : Nat) (L U : Arg) (xs : List Int)
+    (hL : canBeInt L = none) (hU : canBeInt U = none) (hm : ¬ ∃ l u, L = .int l ∧ U = .int u) :
+    numlist3 2 fuel L U (.ints xs) = .hang (numlistFound fuel L U (.ints xs)) ∧
+      (numlistFound fuel L U (.ints xs)).length ≤ 1 :=
+  ⟨numlist3_bound_list_hangs fuel L U xs hL hU hm, numlistFound_bound_list_le_one fuel L U xs⟩
+
+/-! ## length/2 -/
+
+/-- PARTIAL (finding C49-1). `length/2` of the pinned code equals its specification for lists that
+fit a 64-bit address space, lengths whose list fits the heap (`cap`), and integer lengths not below
+`-2^63`. What is missing: the domain error for integers below `-2^63` (see the examples below). -/
+theorem C49_length_spec_partial (cap n fresh : Nat) (xs : PList) (N : Arg)
+    (hk : (xs.k : Int) < 2 ^ 63)
+    (hN : ∀ i, N = .int i → -(2 ^ 63) ≤ i ∧ (∀ t, xs.tail = .var t → i - xs.k ≤ cap)) :
+    length true cap n fresh xs N = specLength n fresh xs N :=
+  length_eq_spec true cap n fresh xs N hk (fun i e => ⟨fun _ => (hN i e).1, (hN i e).2⟩)
+
+/-- With the fix proposed in notes/findings/C49-1.md (`is_integer() && !is_negative()`) the
+specification holds for every integer length. -/
+theorem C49_length_spec_fixed (cap n fresh : Nat) (xs : PList) (N : Arg)
+    (hk : (xs.k : Int) < 2 ^ 63)
+    (hN : ∀ i, N = .int i → ∀ t, xs.tail = .var t → i - xs.k ≤ cap) :
+    length false cap n fresh xs N = specLength n fresh xs N :=
+  length_eq_spec false cap n fresh xs N hk (fun i e => ⟨fun h => by cases h, hN i e⟩)
+
+/-- A proper list with `k` elements has length `k`: `N` unbound gives the single answer `k`; an
+integer `N ≥ -2^63` succeeds iff `N = k` (negative: domain error). -/
+theorem C49_length_proper (p : Bool) (cap n fresh k v : Nat) (hn : 1 ≤ n) (hk : (k : Int) < 2 ^ 63) :
+    length p cap n fresh ⟨k, .nil⟩ (.var v) = .ans [⟨k, []⟩] ∧
+    ∀ i : Int, 0 ≤ i →
+      length p cap n fresh ⟨k, .nil⟩ (.int i) = (if i = k then .ans [⟨i, []⟩] else .ans []) := by
+  constructor
+  · rw [length_eq_spec p cap n fresh ⟨k, .nil⟩ (.var v) hk (by intro i e; cases e)]
+    simp [specLength, ansN, List.take_of_length_le, hn]
+  · intro i hi
+    rw [length_eq_spec p cap n fresh ⟨k, .nil⟩ (.int i) hk
+      (by intro j e; cases e; exact ⟨fun _ => by omega, fun t e => by cases e⟩)]
+    have : ¬ i < 0 := by omega
+    simp only [specLength, this, ↓reduceIte]
+    split <;> simp [ansN, List.take_of_length_le, hn]
+
+/-- A partial list with `k` elements and an unbound length (not the tail itself): for every `n`,
+the first `n` answers are `N = k, k+1, …, k+n-1`, the `j`-th with the tail bound to a list of `j`
+variables that are pairwise distinct and do not occur in the query (`≥ fresh`). The enumeration
+never ends (there are `n` answers for every `n`). -/
+theorem C49_length_partial_enumerates (p : Bool) (cap n fresh k t v : Nat) (hvt : v ≠ t)
+    (hk : (k : Int) < 2 ^ 63) :
+    length p cap n fresh ⟨k, .var t⟩ (.var v)
+        = .ans ((List.range n).map fun (j : Nat) => (⟨(k : Int) + (j : Int), freshVars fresh j⟩ : LenAns)) ∧
+      ∀ j, (freshVars fresh j).length = j ∧ (freshVars fresh j).Nodup ∧ ∀ x ∈ freshVars fresh j, fresh ≤ x := by
+  constructor
+  · rw [length_eq_spec p cap n fresh ⟨k, .var t⟩ (.var v) hk (by intro i e; cases e)]
+    simp [specLength, hvt]
+  · intro j
+    exact ⟨length_freshVars _ _, freshVars_nodup _ _, fun x hx => ((mem_freshVars _ _ _).1 hx).1⟩
+
+/-- A partial list with `k` elements and an integer length `i ≥ 0`: failure if `i < k`; otherwise the
+tail becomes a list of `i - k` fresh variables (when such a list fits the heap). -/
+theorem C49_length_partial_bound (p : Bool) (cap n fresh k t : Nat) (i : Int) (hn : 1 ≤ n) (hi : 0 ≤ i)
+    (hk : (k : Int) < 2 ^ 63) (hc : i - k ≤ cap) :
+    length p cap n fresh ⟨k, .var t⟩ (.int i)
+      = (if i < k then .ans [] else .ans [⟨i, freshVars fresh (i - k).toNat⟩]) := by
+  rw [length_eq_spec p cap n fresh ⟨k, .var t⟩ (.int i) hk
+    (by intro j e; cases e; exact ⟨fun _ => by omega, fun _ _ => hc⟩)]
+  have : ¬ i < 0 := by omega
+  simp only [specLength, this, ↓reduceIte]
+  split <;> simp [ansN, List.take_of_length_le, hn]
+
+/-- Error table of `length/2`, whatever the first argument: a length that is not an integer gives
+`type_error(integer, N)`; a negative integer (for the pinned code: not below `-2^63`) gives
+`domain_error(not_less_than_zero, N)`; a partial list whose tail is the length variable gives
+`resource_error(finite_memory)`. A term that is no (partial) list just fails. -/
+theorem C49_length_errors_partial (p : Bool) (cap n fresh : Nat) (xs : PList) (b k t : Nat) (i : Int)
+    (hk : (xs.k : Int) < 2 ^ 63) (hi : i < 0) (hp : p = true → -(2 ^ 63) ≤ i) :
+    length p cap n fresh xs (.bad b) = .err (.typeInt (.bad b)) ∧
+    length p cap n fresh xs (.int i) = .err (.domNlz i) ∧
+    length p cap n fresh ⟨k, .var t⟩ (.var t) = .err .resFinite ∧
+    length p cap n fresh ⟨k, .nonlist⟩ (.var t) = .ans [] := by
+  refine ⟨?_, ?_, ?_, ?_⟩
+  · rw [length_eq_spec p cap n fresh xs (.bad b) hk (by intro j e; cases e)]; rfl
+  · rw [length_eq_spec p cap n fresh xs (.int i) hk
+      (by intro j e; cases e; exact ⟨hp, fun _ _ => by omega⟩)]
+    simp [specLength, hi]
+  · simp [length, skip_var]
+  · simp [length, skip_var]
+
+/-! ## Non-vacuity and the two findings on the model of the pinned code -/
+
+example : between 8 (.int 1) (.int 3) (.var 0) = .ans [1, 2, 3] := by decide
+example : between 3 (.int (2 ^ 64 - 1)) (.int (2 ^ 70)) (.var 0) = .ans [2 ^ 64 - 1, 2 ^ 64, 2 ^ 64 + 1] := by decide
+example : between 8 (.int 1) (.bad 0) (.var 0) = .err (.typeInt (.bad 0)) := by decide
+example : succ 2 (.var 0) (.int 0) = .ans [] := by decide
+example : succ 2 (.int (2 ^ 63 - 1)) (.var 0) = .ans [(2 ^ 63 - 1, 2 ^ 63)] := by decide
+example : length true 100 3 2 ⟨2, .var 0⟩ (.var 1)
+    = .ans [⟨2, []⟩, ⟨3, [2]⟩, ⟨4, [2, 3]⟩] := by decide
+example : length true 100 3 2 ⟨2, .var 0⟩ (.int 1) = .ans [] := by decide
+example : length true 100 3 2 ⟨2, .var 0⟩ (.int (-1)) = .err (.domNlz (-1)) := by decide
+/-- the hypotheses of `C49_length_spec_partial` are satisfiable with a bignum length -/
+example : length true 100 3 2 ⟨3, .nil⟩ (.int (2 ^ 64)) = specLength 3 2 ⟨3, .nil⟩ (.int (2 ^ 64)) := by decide
+/-- finding C49-1 on the model: below `-2^63` the pinned code fails / runs out of memory … -/
+example : length true 100 3 2 ⟨3, .nil⟩ (.int (-(2 ^ 63) - 1)) = .ans [] := by decide
+example : length true 100 3 2 ⟨0, .var 0⟩ (.int (-(2 ^ 63) - 1)) = .err .resMemory := by decide
+/-- … where the specification, and the fixed code, raise the domain error -/
+example : specLength 3 2 ⟨3, .nil⟩ (.int (-(2 ^ 63) - 1)) = .err (.domNlz (-(2 ^ 63) - 1)) := by decide
+example : length false 100 3 2 ⟨3, .nil⟩ (.int (-(2 ^ 63) - 1)) = .err (.domNlz (-(2 ^ 63) - 1)) := by decide
+/-- finding C49-2 on the model: `numlist(L, U, [2,3])` finds `(2,3)` and is still searching -/
+example : numlist3 1 9 (.var 0) (.var 1) (.ints [2, 3]) = .ans [(2, 3, [2, 3])] := by
+  rw [show numlist3 1 9 (.var 0) (.var 1) (.ints [2, 3]) = search 1 (numlistFound 9 (.var 0) (.var 1) (.ints [2, 3])) from rfl]
+  simp [numlistFound, diagInts, diagNats2, diagNats4, diagNatsNext, diagNatsSigns, numlistBody_eq, rangeIncl,
+    unifyInts, search, List.range_succ_eq_map]
+example : specNumlist3 2 9 (.var 0) (.var 1) (.ints [2, 3]) = .ans [(2, 3, [2, 3])] := by
+  simp [specNumlist3, canBeInt, boundsOf, rangeIncl, argAdmits, ansN, List.range_succ_eq_map]
 
 end Scryer.IntRel
